@@ -342,6 +342,8 @@ class C18(Property):
         ("antismash/common/record_processing.py", "pre_process_sequences"),
         ("antismash/common/record_processing.py", "sanitise_sequence"),
         ("antismash/common/record_processing.py", "ensure_cds_info"),
+        ("antismash/common/record_processing.py", "filter_records_by_name"),
+        ("antismash/common/record_processing.py", "filter_records_by_count"),
         ("antismash/common/record_processing.py", "fix_record_name_id"),
         ("antismash/common/record_processing.py", "generate_unique_id"),
         ("antismash/common/secmet/record.py", "Record.__slots__"),
@@ -701,6 +703,18 @@ class C18(Property):
                     records.append(spec)
                 cases.append({"kind": "prep", "cpus": k, "records": records, "minlength": 1,
                               "allow_long_headers": rng.random() < 0.3})
+        # the parent-side filters between the two trips through the pool
+        for k in ([2, 4, 16] if thorough else [2]):
+            for rep in range(4 if thorough else 2):
+                count = rng.choice([3, 4, 6])
+                recs = [self.rand_record(rng, i, False, rng.choice([120, 300, 300, 700, 1500]), rich=False)
+                        for i in range(count)]
+                if rng.random() < 0.4:
+                    recs[rng.randrange(count)]["seq"] = "NNNN" * 60
+                target = rng.choice(["", "", recs[rng.randrange(count)]["id"]])
+                cases.append({"kind": "prep", "filters": True, "cpus": k, "records": recs,
+                              "minlength": rng.choice([1, 200, 400]), "limit": rng.choice([-1, 1, 2, 3, 10]),
+                              "limit_to_record": target})
         # parallel_execute with real children
         for k in ([1, 2, 5, 16] if thorough else [1, 3]):
             codes = [rng.choice([0, 0, 1, 3, 7]) for _ in range(rng.choice([k, k + 1, 2 * k + 1]))]
@@ -806,6 +820,13 @@ class C18(Property):
             if case["func"] not in ("sanitise", "genefind") or "given" not in obs:
                 return None
             return {"kind": "workers", "func": case["func"], "records": obs["given"]}
+        if kind == "prep" and case.get("filters"):
+            if "lens" not in obs:
+                return None
+            return {"kind": "filters", "target": case.get("limit_to_record", ""), "minlength": case.get("minlength", 10),
+                    "limit": case.get("limit", -1),
+                    "frecs": [[rid, n, None if real else "contains no sequence"]
+                              for rid, n, real in zip(obs["ids"], obs["lens"], obs["real"])]}
         if kind == "prep":
             if "recs" not in obs or any(spec.get("original_id") or spec.get("genbank") for spec in case["records"]):
                 return None
@@ -861,7 +882,22 @@ class C18(Property):
                     problems.append(f"worker function model raises {model.get('err')}, implementation {obs.get('error') or 'returned'}")
                 if not corr and len(problems) == 1:
                     return Judgement(False, True, nontrivial=True, tags=tuple(tags), detail=problems[0][:600])
-            if kind == "prep" and drv is not None and "recs" in obs and "model" in drv:
+            if kind == "prep" and case.get("filters") and drv is not None and "model" in drv and "skips" in obs:
+                # Lean model of filter_records_by_name / minimum length / filter_records_by_count; a record
+                # the filters leave alone may still be marked by ensure_cds_info afterwards
+                tags.append("filters-model")
+                want = drv["model"].get("skips")
+                if want is None:
+                    corr = False
+                    problems.append(f"filters model raises {drv['model'].get('err')}, implementation returned")
+                else:
+                    final = [w if w else ("No genes found" if c == 0 else None) for w, c in zip(want, obs["cds"])]
+                    if final != obs["skips"]:
+                        corr = False
+                        problems.append(f"filters model: skip flags {final} vs implementation {obs['skips']}")
+                if not corr and len(problems) == 1:
+                    return Judgement(False, True, nontrivial=True, tags=tuple(tags), detail=problems[0][:600])
+            elif kind == "prep" and drv is not None and "recs" in obs and "model" in drv:
                 # Lean: the id set threaded in the parent (C16 model) = the one-cpu result (theorem
                 # state_threaded_in_parent_cpus_invariant); `shipped` = a copy per task batch
                 model = drv["model"].get("recs")
